@@ -365,7 +365,22 @@ def run(ctx):
         it = ['f1'] * cfg.accum + ['s']
         cfg.ops = it + ['l11'] + it * 2
         cfgs.append(cfg)
-    kfacsim.run_batch(ctx, cfgs, ('grads', 'ranks'), oracles=(kfacsim.oracle_reference,), whole_only_oracles=False)
+    kfacsim.run_batch(ctx, cfgs, ('grads', 'ranks'), oracles=(kfacsim.oracle_reference, oracle_clip_disabled), whole_only_oracles=False)
+
+
+def oracle_clip_disabled(ctx, cfg, rr):
+    """a kl_clip schedule may evaluate to None at some step (clipping during warm-up, disabled afterwards): that step writes
+    the preconditioned gradients back unscaled — it does not raise (C07-mutU decided on the raw attribute instead of the
+    evaluated value and then divided None by a float)"""
+    kl = cfg.hyper.get('kl_clip')
+    if not (isinstance(kl, list) and any(v is None for v in kl)):
+        return
+    w = rr.world
+    for r, e in (w.exceptions or {}).items():
+        if 'TypeError' in str(e) and 'NoneType' in str(e):
+            ctx.fail(f'rank {r}: step() raised {e} on a history whose kl_clip schedule evaluates to None at some step (clipping disabled there); '
+                     'the statement has the gradients written back unscaled', dict(cfg.describe()), 'clip-disabled-raised')
+            return
 
 
 def search(ctx):
@@ -375,7 +390,7 @@ def search(ctx):
 def replay(ctx, payload):
     c = payload.get('case', {})
     if 'world' in c and 'ops' in c:
-        return kfacsim.replay_case(ctx, payload, ('grads', 'ranks'), oracles=(kfacsim.oracle_reference,))
+        return kfacsim.replay_case(ctx, payload, ('grads', 'ranks'), oracles=(kfacsim.oracle_reference, oracle_clip_disabled))
     ctor_stream(ctx)
     exact_stream(ctx)
     for f in ctx.failures[:5]:
